@@ -288,6 +288,71 @@ Fixpoint pspec (cur : option pcomp) (h : list pop) : list (option (list R)) :=
   | OpQuery inp ts :: r => fresh_answer cur inp ts :: pspec cur r
   end.
 
+(* ---- Processor(backend, circuit) with a polarised input: configuration history, then probs() ----
+   perceval/components/processor.py, experiment.py.  State: the component list, the input state, the cached input
+   distribution `_inputs_map` (what is actually simulated), the cached simulator (dropped by every circuit change),
+   the photon-count filter (unset until min_detected_photons_filter is called; probs() on a perfect source then
+   latches it to the photon number of the input of that moment: check_min_detected_photons_filter).
+   with_polarized_input caches the polarised state itself; a noise assignment keeps the
+   cache when the input is a custom one (_has_custom_input: a polarised BasicState is), otherwise drops it, and
+   probs() then regenerates it through the source, which does not carry the P annotations (every photon H). *)
+Record pproc := mkpproc {
+  pp_m : nat; pp_items : list (nat * pcomp);
+  pp_input : option pinput; pp_cache : option pinput;
+  pp_sim : option (mat R); pp_filter : option nat }.
+Inductive cop :=
+| CInput (inp : pinput)                 (* with_polarized_input *)
+| CNoise                                (* processor.noise = NoiseModel() / None / the same object *)
+| CAdd (off : nat) (c : pcomp)          (* processor.add(off, component) *)
+| CFilter (k : nat)                     (* min_detected_photons_filter(k) *)
+| CProbs (ts : list state).             (* probs() *)
+Definition strip_pol (inp : pinput) : pinput := map (map (fun _ : jones => default_jones)) inp.
+Definition nphotons (inp : pinput) : nat := fold_right (fun vs acc => (length vs + acc)%nat) 0%nat inp.
+Definition has_custom_input (s : pproc) : bool := match pp_input s with Some _ => true | None => false end.
+Definition cstep (s : pproc) (o : cop) : pproc * option (bool * list R) :=
+  match o with
+  | CInput inp => (mkpproc (pp_m s) (pp_items s) (Some inp) (Some inp) (pp_sim s) (pp_filter s), None)
+  | CNoise => (mkpproc (pp_m s) (pp_items s) (pp_input s)
+                       (if has_custom_input s then pp_cache s else None) (pp_sim s) (pp_filter s), None)
+  | CAdd off c => (mkpproc (pp_m s) (pp_items s ++ [(off, c)]) (pp_input s) (pp_cache s) None (pp_filter s), None)
+  | CFilter k => (mkpproc (pp_m s) (pp_items s) (pp_input s) (pp_cache s) (pp_sim s) (Some k), None)
+  | CProbs ts =>
+      match pp_input s with
+      | None => (s, None)
+      | Some inp0 =>
+          let inp := match pp_cache s with Some i => i | None => strip_pol inp0 end in
+          let U := match pp_sim s with Some U => U | None => cmat (pdouble (PSub (pp_m s) (pp_items s))) end in
+          let k := match pp_filter s with Some k => k | None => nphotons inp0 end in
+          (mkpproc (pp_m s) (pp_items s) (pp_input s) (Some inp) (Some U) (Some k),
+           match first_err (prep_states inp) with
+           | Some _ => None
+           | None => Some ((k <=? nphotons inp)%nat, impl_amps U (pp_m s) inp ts)
+           end)
+      end
+  end.
+Fixpoint crun (s : pproc) (h : list cop) : list (option (bool * list R)) :=
+  match h with [] => [] | o :: r => let sa := cstep s o in snd sa :: crun (fst sa) r end.
+(* what the property prescribes: the circuit as it is at the time of the call, the polarised input given last *)
+Fixpoint cspec (m : nat) (items : list (nat * pcomp)) (cur : option pinput) (k : option nat) (h : list cop)
+  : list (option (bool * list R)) :=
+  match h with
+  | [] => []
+  | CInput inp :: r => None :: cspec m items (Some inp) k r
+  | CNoise :: r => None :: cspec m items cur k r
+  | CAdd off c :: r => None :: cspec m (items ++ [(off, c)]) cur k r
+  | CFilter k' :: r => None :: cspec m items cur (Some k') r
+  | CProbs ts :: r =>
+      match cur with
+      | None => None :: cspec m items cur k r
+      | Some inp =>
+          let k' := match k with Some k' => k' | None => nphotons inp end in
+          match first_err (prep_states inp) with
+          | Some _ => None
+          | None => Some ((k' <=? nphotons inp)%nat, impl_amps (cmat (pdouble (PSub m items))) m inp ts)
+          end :: cspec m items cur (Some k') r
+      end
+  end.
+
 (* ---- specification: one column U . jones_p per photon ---- *)
 (* permanent with arbitrary column vectors: amplitude of prod_p (sum_j w_p(j) a+_j)|0> on t, times sqrt(prod t!) *)
 Fixpoint permC (n : nat) (cols : list (nat -> R)) (t : state) : R :=
@@ -318,7 +383,7 @@ Arguments pwf {_}. Arguments pwfb {_}. Arguments no_empty {_}. Arguments pflatte
 Arguments ones {_}. Arguments is_empty_sub {_}.
 Arguments jones_label {_}. Arguments jones_standard {_}. Arguments jones_quarter {_}. Arguments cos_q {_}.
 Arguments sin_q {_}. Arguments ipow {_}.
-Arguments veqb {_}. Arguments inner {_}. Arguments mstep {_}. Arguments mode_prep {_}. Arguments mblock {_}. Arguments mblock_old {_}. Arguments prep_matrix {_}. Arguments impl_amp {_}. Arguments impl_amps {_}. Arguments psim0 {_}. Arguments OpSet {_}. Arguments OpQuery {_}. Arguments pstep {_}. Arguments prun {_}. Arguments pspec {_}. Arguments fresh_answer {_}. Arguments ps_upol {_}. Arguments ps_inner {_}. Arguments mkpsim {_}.
+Arguments veqb {_}. Arguments inner {_}. Arguments mstep {_}. Arguments mode_prep {_}. Arguments mblock {_}. Arguments mblock_old {_}. Arguments prep_matrix {_}. Arguments impl_amp {_}. Arguments impl_amps {_}. Arguments psim0 {_}. Arguments mkpproc {_}. Arguments pp_m {_}. Arguments pp_items {_}. Arguments pp_input {_}. Arguments pp_cache {_}. Arguments pp_sim {_}. Arguments pp_filter {_}. Arguments CInput {_}. Arguments CNoise {_}. Arguments CAdd {_}. Arguments CFilter {_}. Arguments CProbs {_}. Arguments cstep {_}. Arguments crun {_}. Arguments cspec {_}. Arguments strip_pol {_}. Arguments nphotons {_}. Arguments OpSet {_}. Arguments OpQuery {_}. Arguments pstep {_}. Arguments prun {_}. Arguments pspec {_}. Arguments fresh_answer {_}. Arguments ps_upol {_}. Arguments ps_inner {_}. Arguments mkpsim {_}.
 Arguments mcounts {_}. Arguments merr {_}. Arguments bdiag {_}. Arguments bentry {_}. Arguments idblock {_}.
 Arguments prep_states {_}. Arguments photon_jones {_}. Arguments default_jones {_}. Arguments resolve_photons {_}. Arguments first_err {_}. Arguments spatial_input {_}. Arguments prep_matrix_old {_}.
 Arguments no_photon {_}. Arguments convert_old {_}. Arguments ConvErr {_}. Arguments ConvNoMatrix {_}. Arguments ConvOk {_}.
